@@ -122,6 +122,25 @@ def check_case(case):
                 bad = ~((np.abs(a - b) <= 1e-13 * np.maximum(np.abs(b), scale)) | (np.isnan(a) & np.isnan(b)) | ((a == b)))
                 if bad.any():
                     i = int(np.argmax(bad))
+                    # rounding never decides a verdict: numpy's array and scalar code paths may differ by an ulp
+                    # (e.g. in pow), and an ill-conditioned quantity (cos of 1e36) turns that ulp into anything.
+                    # If the reference calls any quantity of the model ill-conditioned at this column, the
+                    # difference proves nothing
+                    try:
+                        ev = refsem.Evaluator(model, cols[j])
+                        kinds = {ev.status(a_["name"])[0] for a_ in model["assigns"]}
+                    except Exception:
+                        kinds = set()
+                    try:
+                        with np.errstate(all="ignore"):
+                            mv = np.asarray(mod.ns["monitor_values"](*[v1[n] for n in mod.argnames("monitor_values")]), dtype=np.float64)
+                        huge = bool(np.any(np.abs(mv[np.isfinite(mv)]) > 1e15))
+                    except Exception:
+                        huge = False
+                    if "ill-conditioned" in kinds or huge:
+                        # (a quantity beyond 1e15 has an ulp above 0.1: whatever is computed from it periodically
+                        # or by cancellation carries no information)
+                        raise Inconclusive("ill-conditioned-column")
                     raise Violation(
                         f"C14:{fname}:column-differs",
                         dict(ctx, column=j, slot=i, batched=float(a[i]), alone=float(b[i]), columns=cols, per_column_params=case["per_column_params"], vector_t=case["vector_t"]),
